@@ -35,6 +35,7 @@ pub fn plan(quick: bool) -> Vec<Part> {
     v.push(Part::new("C20", "handbuilt-node-lists", 4, if quick { Space::singles(4, 6).plus(Space { segs: vec![vcommon::families::Seg::Pair(4, 4), vcommon::families::Seg::Pair(5, 4)] }) } else { Space::singles(4, 8).plus(Space::pairs(4, 5)).plus(Space::triples(4, 4)) }).dim("handbuilt", &[1]));
     for k in BIG_K {
         v.push(Part::new("C20", "catalogue", k, Space { segs: vec![catalogue(k)] }));
+        v.push(Part::new("C20", "lifted", k, vcommon::families::lifted(k, !quick)));
     }
     v
 }
